@@ -8,6 +8,9 @@ use std::path::PathBuf;
 
 fn main() {
     let args: Vec<String> = std::env::args().skip(1).collect();
+    // the recording panic hook in every mode: the child-process traces describe a panicking
+    // operation exactly like the checker process does
+    engine::install_quiet_panic_hook();
     if args.first().map(|s| s.as_str()) == Some("--scenario-trace") {
         rngs_verif::props::c19::scenario_trace_main();
         return;
